@@ -671,6 +671,10 @@ func (d *Decl) BuildAPIWith(between func(b *Built)) *Built {
 			fg.Namespace = g.Namespace
 			fg.EnvNamespace = g.EnvNamespace
 			fg.Hidden = g.Hidden
+			if between != nil && len(g.Groups) > 0 {
+				// late build: the parser is used once more before the nested groups arrive through (*Group).AddGroup
+				between(b)
+			}
 			if err := addGroups(fg, g.Groups); err != nil {
 				return err
 			}
